@@ -155,7 +155,7 @@ pub proof fn lemma_first_op(c: Seq<char>)
        ),
     Fn(CAPS, 'validate_suffix',
        subs=[ret(), ERR,
-             ('debug_assert!(last_ch.is_some())', 'assert(last_ch is Some)', 1, 'R33-debug_assert! as an obligation (it panics in debug builds)'),
+             (re.compile(r'debug_assert!\((\w+)\.is_some\(\)\)'), r'assert(\1 is Some)', 1, 'R33-debug_assert! as an obligation (it panics in debug builds)'),
              ],
        spec='''    requires s@.len() > 0 ==> is_op(s@[0]),      // callers pass the text from the first operator on
     ensures r is Ok <==> suffix_ok(s@),''',
@@ -167,20 +167,17 @@ pub proof fn lemma_first_op(c: Seq<char>)
        subs=[ret(), ERR,
              ('s.trim()', 'str_trim(s)', 1, 'R32-str::trim'),
              ('s.is_empty()', 'str_is_empty(s)', 1, 'R32-str::is_empty'),
-             ("part.find(['+', '-', '='])", 'find_op(part)', 1, 'R32-str::find([ops])'),
+             (re.compile(r"\b(\w+)\.find\(\['\+', '-', '='\]\)"), r'find_op(\1)', 1, 'R32-str::find([ops])'),
              (re.compile(r"!(\w+)\.starts_with\('='\)"), r"!starts_with_char(\1, '=')", 1, 'R12-str::starts_with(char)'),
-             ('&part[..index]', 'str_to(part, index)', 1, 'R32-slicing at the found offset'),
-             ('&part[index..]', 'str_from(part, index)', 1, 'R32-slicing at the found offset'),
+             (re.compile(r'&(\w+)\[\.\.(\w+)\]'), r'str_to(\1, \2)', 1, 'R32-slicing at the found offset'),
+             (re.compile(r'&(\w+)\[(\w+)\.\.\]'), r'str_from(\1, \2)', 1, 'R32-slicing at the found offset'),
              ('pub fn validate_caps_text', '#[verifier::loop_isolation(false)]\npub fn validate_caps_text', 1, 'verifier attribute: facts about variables the loop does not modify stay available'),
              ],
-       before=[('        let index = match', '''        proof {
-            lemma_first_op(part@);
-            assert(strs_view(parts@)[i_p as int] == part@);
-        }
-''')],
+
        spec='''    ensures
         r is Ok <==> trimmed(s@).len() > 0 && forall|j: int| 0 <= j < tokens(trimmed(s@)).len() ==> clause_ok(#[trigger] tokens(trimmed(s@))[j]),''',
-       index_loops={0: ('i_p', LOOP_TEXT, '', ('s.split_whitespace()', 'let parts = split_whitespace_vec(s);', 'parts'))},
+       index_loops={0: ('i_p', LOOP_TEXT, '', ('s.split_whitespace()', 'let parts = split_whitespace_vec(s);', 'parts',
+                                           '{v}[{i}]; proof {{ lemma_first_op({v}[{i} as int]@); assert(strs_view({v}@)[{i} as int] == {v}[{i} as int]@); }}'))},
        ),
     Decl(CAPS, 'struct', 'FileCaps', subs=[('pub struct FileCaps(String);', 'pub struct FileCaps(pub String);', 1, 'R13-visibility-field')]),
     Raw('''
